@@ -447,6 +447,10 @@ def check_shifter_width(run, repo):
 def main(repo_path, tier, seed, replay=None):
     run = Run('C17', tier, level='other', seed=seed)
     repo = Repo(repo_path)
+    import re
+    from .. import memo
+    memo.check(run, repo, 'C17-MEMO', lambda rel, q: rel.endswith('bits_ops.py') or rel.endswith('shift.py') or '/all_registers/' in rel,
+               'the arithmetic helpers and the register field views')
     check_views(run, repo)
     check_indexed(run, repo)
     check_helpers(run, repo)
